@@ -106,6 +106,14 @@ type End struct {
 	sent   [][]byte // copies of everything passed to Send (successful or not)
 }
 
+// ByValue is an End handed to the library as a struct VALUE whose type is not
+// comparable (it holds a slice), as channel.RawJSON's channel type is: a library
+// that compares channel values with == panics on such a type at run time.
+type ByValue struct {
+	*End
+	NotComparable []byte
+}
+
 // NewPair returns two connected ends. Records sent on a are received on b and
 // vice versa.
 func NewPair(aName, bName string, mon Monitor) (a, b *End) {
